@@ -25,14 +25,14 @@ static const char *KINDN[NKINDS] = { "bits-a8r8g8b8", "bits-r5g6b5", "bits-c8-in
 #define IS_BITS(k) ((k) <= K_ARGB1)
 
 enum { F_XF, F_FIL, F_REP, F_CLIP, F_CSRC, F_CCL, F_AMAP, F_CA, F_ACC, F_DITH, F_DOFF, F_PAL, F_PAST, NFIELDS };   /* F_PAST: an episode in the image's life that leaves none of its properties changed */
-static const int NVAL[NFIELDS] = { 10, 6, 4, 4, 2, 2, 4, 2, 2, 3, 2, 5, 3 };
+static const int NVAL[NFIELDS] = { 10, 6, 4, 6, 2, 2, 4, 2, 2, 3, 2, 5, 3 };
 static const char *FIELDN[NFIELDS] = { "set_transform", "set_filter", "set_repeat", "set_clip_region", "set_source_clipping", "set_has_client_clip",
                                        "set_alpha_map", "set_component_alpha", "set_accessors", "set_dither", "set_dither_offset", "set_indexed", "episode" };
 static const char *VALN[NFIELDS][10] = {
     { "NULL", "identity", "scale2", "rot90", "translate(.5,.5)", "scale(2,1)", "homogeneous(2,2,2)", "translate(.5,1.5)", "translate(1,2)", "rot90+translate(.5,0)(= rot90 except for the translation column)" },
     { "nearest", "bilinear", "convolution3x3", "separable", "convolution3x3-B(same header and first row, other later coefficients)", "separable-B(same header and prefix, other last weights)" },
     { "none", "normal", "pad", "reflect" },
-    { "none", "r1(region32: 1,1-4,3)", "r2(region16: 0,0-3,2 + 2,2-5,4)", "r3(region32: 0,0-5,1 + 0,1-2,4; same extents and rectangle count as r2)" },
+    { "none", "r1(region32: 1,1-4,3)", "r2(region16: 0,0-3,2 + 2,2-5,4)", "r3(region32: 0,0-5,1 + 0,1-2,4; same extents and rectangle count as r2)", "empty(region16: a non-NULL region without rectangles)", "empty(region32)" },
     { "off", "on" }, { "off", "on" },
     { "none", "m@(0,0)", "m@(1,0)", "m@(0,0)+accessors-set-on-the-map-image-itself(only the map is touched if it is already attached there)" },
     { "off", "on" }, { "off", "on(xor-1 read/write callbacks)" },
@@ -177,7 +177,9 @@ static void apply_setter(obj_t *o, int f, int v)
         if (v == 0) pixman_image_set_clip_region32(im, NULL);
         else if (v == 1) { pixman_region32_t r; pixman_region32_init_rect(&r, 1, 1, 3, 2); pixman_image_set_clip_region32(im, &r); pixman_region32_fini(&r); }
         else if (v == 2) { pixman_region16_t r; pixman_box16_t b[2] = { { 0, 0, 3, 2 }, { 2, 2, 5, 4 } }; pixman_region_init_rects(&r, b, 2); pixman_image_set_clip_region(im, &r); pixman_region_fini(&r); }
-        else { pixman_region32_t r; pixman_box32_t b[2] = { { 0, 0, 5, 1 }, { 0, 1, 2, 4 } }; pixman_region32_init_rects(&r, b, 2); pixman_image_set_clip_region32(im, &r); pixman_region32_fini(&r); }
+        else if (v == 3) { pixman_region32_t r; pixman_box32_t b[2] = { { 0, 0, 5, 1 }, { 0, 1, 2, 4 } }; pixman_region32_init_rects(&r, b, 2); pixman_image_set_clip_region32(im, &r); pixman_region32_fini(&r); }
+        else if (v == 4) { pixman_region16_t r; pixman_region_init(&r); pixman_image_set_clip_region(im, &r); pixman_region_fini(&r); }      /* clipped to nothing */
+        else { pixman_region32_t r; pixman_region32_init(&r); pixman_image_set_clip_region32(im, &r); pixman_region32_fini(&r); }
         break;
     case F_CSRC: pixman_image_set_source_clipping(im, v ? ph_truthy((uint64_t)o->kind + 1) : 0); break;      /* "on" is any non-zero int */
     case F_CCL: pixman_image_set_has_client_clip(im, v ? ph_truthy((uint64_t)o->kind + 3) : 0); break;
@@ -234,7 +236,8 @@ static const char *model_mismatch(const obj_t *o, const ast_t *s)
     if (s->v[F_XF] <= 1) { if (c->transform) return "transform (expected NULL)"; }
     else { if (!c->transform) return "transform (NULL)"; for (int i = 0; i < 9; i++) if (c->transform->matrix[i / 3][i % 3] != XFM[s->v[F_XF]][i]) return "transform matrix"; }
     if (!!c->have_clip_region != (s->v[F_CLIP] != 0)) return "have_clip_region";
-    if (s->v[F_CLIP]) {
+    if (s->v[F_CLIP] >= 4) { if (pixman_region32_not_empty((pixman_region32_t *)&c->clip_region)) return "clip_region (expected empty)"; }
+    else if (s->v[F_CLIP]) {
         static const pixman_box32_t B[3][2] = { { { 1, 1, 4, 3 }, { 0, 0, 0, 0 } }, { { 0, 0, 3, 2 }, { 2, 2, 5, 4 } }, { { 0, 0, 5, 1 }, { 0, 1, 2, 4 } } };
         pixman_region32_t want; pixman_region32_init_rects(&want, B[s->v[F_CLIP] - 1], s->v[F_CLIP] == 1 ? 1 : 2);
         int eq = pixman_region32_equal(&want, (pixman_region32_t *)&c->clip_region); pixman_region32_fini(&want);
@@ -363,7 +366,7 @@ static uint64_t state_id(const ast_t *s) { uint64_t id = 0; for (int f = NFIELDS
 
 typedef struct {
     int kind;
-    int ntrans; trans_t trans[56];
+    int ntrans; trans_t trans[64];
     int nstates; ast_t *states;
     int nvariants;
     int ncfg; const int *cfgs;
@@ -375,12 +378,12 @@ static void make_trans(space_t *sp, int kind)
     sp->ntrans = 0;
     add_trans(sp, F_XF, 10); add_trans(sp, F_REP, 4);
     if (IS_BITS(kind)) {
-        add_trans(sp, F_FIL, 6); add_trans(sp, F_CLIP, 4); add_trans(sp, F_CSRC, 2); add_trans(sp, F_CCL, 2); add_trans(sp, F_AMAP, 4); add_trans(sp, F_CA, 2);
+        add_trans(sp, F_FIL, 6); add_trans(sp, F_CLIP, 6); add_trans(sp, F_CSRC, 2); add_trans(sp, F_CCL, 2); add_trans(sp, F_AMAP, 4); add_trans(sp, F_CA, 2);
         add_trans(sp, F_ACC, 2); add_trans(sp, F_DITH, 3); add_trans(sp, F_DOFF, 2);
         sp->trans[sp->ntrans].f = F_PAST; sp->trans[sp->ntrans++].v = 1; sp->trans[sp->ntrans].f = F_PAST; sp->trans[sp->ntrans++].v = 2;
         if (kind == K_C8) add_trans(sp, F_PAL, 5);
     } else {
-        add_trans(sp, F_FIL, 2); add_trans(sp, F_CLIP, 4); add_trans(sp, F_CSRC, 2); add_trans(sp, F_CCL, 2); add_trans(sp, F_CA, 2);
+        add_trans(sp, F_FIL, 2); add_trans(sp, F_CLIP, 6); add_trans(sp, F_CSRC, 2); add_trans(sp, F_CCL, 2); add_trans(sp, F_CA, 2);
     }
 }
 /* universe = product of the listed per-field value counts (values 0..n-1 of each field) */
